@@ -703,6 +703,15 @@ func (x *Exec) evalCall(env *Env, e *Expr) (Val, error) {
 			return nil, fmt.Errorf("itpos: expected %d key components", len(it.Fam.KeySorts))
 		}
 		return UF(fmt.Sprintf("it%d_pos", id), SInt, it.Fam.key(ks)), nil
+	case "foreign": // foreign("Method", n, i): i-th result of the n-th call of a foreign keeper method in this unit
+		if len(e.Args) != 3 || e.Args[0].Kind != "str" || e.Args[1].Kind != "num" || e.Args[2].Kind != "num" {
+			return nil, fmt.Errorf("foreign(\"Method\", n, i)")
+		}
+		nm := fmt.Sprintf("fr_%s_%s_%s", e.Args[0].Str, e.Args[1].Num.String(), e.Args[2].Num.String())
+		if v, ok := foreignSyms[nm]; ok {
+			return v, nil
+		}
+		return nil, errNilDeref{"foreign call result " + nm + " does not exist on this path"}
 	case "nftkey":
 		if err := need(2); err != nil {
 			return nil, err
